@@ -346,7 +346,7 @@ func resTerm(r jres, prev *jres) string {
 
 var minInt64Big = new(big.Int).SetInt64(-1 << 63)
 
-// the known-finding shape, decided from the inputs only: some create/write timestamp
+// the FORMER known-finding shape (now only counted), decided from the inputs only: some create/write timestamp
 // whose window start (truncation with the duration in force) is before MinInt64 ns,
 // followed later by a reload.
 func shapeSig(c *jcase) string {
@@ -409,11 +409,12 @@ func run(w *vh.W, c *jcase) {
 	if len(c.Res) > 0 {
 		ngroups = len(c.Res[len(c.Res)-1].Groups)
 	}
+	// former finding shape (fixed by /repo commit f8af500a39): still generated and counted, no longer tolerated
 	sig := shapeSig(c)
 	t := fmt.Sprintf("{| c_d := %s; c_ops := %s; c_res := %s |}", zz(c.D), vh.List(ops), vh.List(res))
-	w.Add(t, c, ngroups >= 2 && nreload >= 1 && ncreate >= 2, sig)
+	w.Add(t, c, ngroups >= 2 && nreload >= 1 && ncreate >= 2, "")
 	w.Count("groups_final", fmt.Sprint(min(ngroups, 8)))
-	w.Count("tagged_wrap_shape", fmt.Sprint(sig != ""))
+	w.Count("window_start_before_minint64_then_reload", fmt.Sprint(sig != ""))
 }
 
 var durations = []int64{1, 2, 3, 7, 10, 999, 1000, 1e6, 1e9, 60e9, 3600e9, 86400e9, 7 * 86400e9, 30 * 86400e9,
@@ -443,7 +444,7 @@ func main() {
 	hand := []jcase{
 		// F4 candidate (bounds exactly at Unix 0): must round-trip
 		{D: int64(h), Ops: []jop{{K: "create", T: 0}, {K: "create", T: -1}, {K: "reload"}, {K: "lookup", T: 0}, {K: "lookup", T: -1}, {K: "range", Lo: -5, Hi: 5}, {K: "write", Ts: []int64{0, -1, 1}}}},
-		// known finding: window start before MinInt64 ns, then restart
+		// former finding (fixed in f8af500a39): window start before MinInt64 ns, then restart
 		{D: int64(h), Ops: []jop{{K: "create", T: minNano}, {K: "reload"}, {K: "lookup", T: minNano}, {K: "range", Lo: minNano, Hi: minNano}, {K: "create", T: minNano}}},
 		{D: 7 * 86400e9, Ops: []jop{{K: "write", Ts: []int64{minNano + 5, minNano + 86400e9}}, {K: "reload", Mode: 1}, {K: "write", Ts: []int64{minNano + 5}}}},
 		// upper extreme: end clamped to MaxNanoTime+1
